@@ -1319,3 +1319,76 @@ Proof.
   assert (Ht2 : action_eqb (s_act d2) Tarball = false) by (destruct Ha as [<-|[<-|[<-|[<-|[]]]]]; reflexivity).
   rewrite Ht2. cbn [h_ok h_fs]. auto.
 Qed.
+
+(* ------------------------- content: a task that passed input staging has its files *)
+
+(* tasks handed on by the per-task loop are exactly those whose staging succeeded *)
+Lemma handle_loop_pushed handle okst l : forall fs,
+  let '(_, pushed, _) := handle_loop handle okst l fs in
+  Forall (fun t' => exists t0 fsx, In t0 l /\ t' = fold_left advance (okst t0) t0 /\ h_ok (handle t0 fsx) = true)
+         pushed.
+Proof.
+  induction l as [|t l IH]; intro fs; [constructor|].
+  cbn [handle_loop]. specialize (IH (h_fs (handle t fs))).
+  destruct (handle_loop handle okst l (h_fs (handle t fs))) as [[fs' pushed] failed].
+  assert (Hw : Forall (fun t' => exists t0 fsx, In t0 (t :: l) /\ t' = fold_left advance (okst t0) t0 /\
+                                                h_ok (handle t0 fsx) = true) pushed).
+  { eapply Forall_impl; [|exact IH]. intros a [t0 [fsx [Hin H]]]. exists t0, fsx. split; [right; exact Hin|exact H]. }
+  destruct (h_ok (handle t fs)) eqn:E; [|exact Hw].
+  constructor; [|exact Hw]. exists t, fs. split; [left; reflexivity|]. split; [reflexivity|exact E].
+Qed.
+
+(* staging preserves content.  Every task the agent input stager hands on was
+   handled successfully in some state fsx, and in the state it left every path
+   holds what the last directive writing it put there -- the content its source
+   had when that directive ran -- all other files being untouched (lists of
+   copy/link directives on files; MOVE, TARBALL and directory trees per
+   directive: C11_action_staged, C11_tarball_unpacked_in_place,
+   C11_directory_action_staged) *)
+Lemma passed_input_content l fs :
+  let '(_, pushed, _) := handle_loop agent_si_handle (fun _ => [AGENT_SCHEDULING_PENDING]) l fs in
+  Forall (fun t' => exists t0 fsx,
+            In t0 l /\ t' = advance t0 AGENT_SCHEDULING_PENDING /\ h_ok (agent_si_handle t0 fsx) = true /\
+            let ds := filter (has_action [Link; Copy; Move; Tarball]) (t_in t0) in
+            (forallb keeps ds = true -> files_only (agent_in_step t0) ds fsx = true ->
+             List.length (h_log (agent_si_handle t0 fsx)) = List.length ds /\
+             forall q, file_at q (h_fs (agent_si_handle t0 fsx)) =
+                       match last_write q (h_log (agent_si_handle t0 fsx)) with
+                       | Some c => Some c
+                       | None => file_at q fsx
+                       end)) pushed.
+Proof.
+  pose proof (handle_loop_pushed agent_si_handle (fun _ => [AGENT_SCHEDULING_PENDING]) l fs) as H.
+  destruct (handle_loop agent_si_handle (fun _ => [AGENT_SCHEDULING_PENDING]) l fs) as [[fs' pushed] failed].
+  eapply Forall_impl; [|exact H]. intros t' [t0 [fsx [Hin [Ht' Hok]]]].
+  exists t0, fsx. split; [exact Hin|]. split; [exact Ht'|]. split; [exact Hok|].
+  intros ds Hk Hfo. exact (agent_input_last_writer t0 ds fsx Hk Hfo Hok).
+Qed.
+
+(* the client packs exactly the sources of the TARBALL directives: every such
+   directive has its member in the tarball, named by the resolved target and
+   carrying the content of the resolved source *)
+Lemma tar_filter_members sctx tctx l : forall have fs na m,
+  tar_filter sctx tctx l have fs = Some (na, m) ->
+  forall d, In d l -> action_eqb (s_act d) Tarball = true ->
+  exists s g z, complete_url sctx (s_src d) = inr s /\ complete_url tctx (s_tgt d) = inr g /\
+                file_at (r_comps s) fs = Some (Plain z) /\ In (r_comps g, z) m.
+Proof.
+  induction l as [|d0 l IH]; intros have fs na m H d Hin Ht; [contradiction|].
+  cbn [tar_filter] in H.
+  destruct (action_eqb (s_act d0) Tarball) eqn:E0; cbn [negb] in H.
+  - destruct (complete_url sctx (s_src d0)) as [|s0] eqn:Es; [discriminate|].
+    destruct (complete_url tctx (s_tgt d0)) as [|g0] eqn:Eg; [discriminate|].
+    destruct (r_empty s0); [discriminate|].
+    destruct (file_at (r_comps s0) fs) as [[z0|mm]|] eqn:Ef; try discriminate.
+    destruct (tar_filter sctx tctx l true fs) as [[na' m']|] eqn:Er; [|discriminate].
+    injection H as _ <-.
+    destruct Hin as [<-|Hin].
+    + exists s0, g0, z0. repeat split; try assumption. left. reflexivity.
+    + destruct (IH _ _ _ _ Er d Hin Ht) as [s [g [z [H1 [H2 [H3 H4]]]]]].
+      exists s, g, z. repeat split; try assumption. right. exact H4.
+  - destruct (tar_filter sctx tctx l have fs) as [[na' m']|] eqn:Er; [|discriminate].
+    injection H as _ <-.
+    destruct Hin as [<-|Hin]; [rewrite E0 in Ht; discriminate|].
+    exact (IH _ _ _ _ Er d Hin Ht).
+Qed.
